@@ -20,9 +20,9 @@ theorem C20_source_as_string_or (hX : JExt X) (alt v : Val) :
 
 /-- `_set_with_message(parent, child, msg, stdout)`: ONE new child element of the given tag, with its `message` set. -/
 theorem C20_source_set_with_message (hX : JExt X) (p : Val) (tag : String) (msg txt : Val) :
-    Gen.c20oSetWithMessageSrc.runTr X [p, .str tag, msg, txt] = .ok (.none, [setV (elemV tag p) "message" msg]) := by
+    Gen.c20oSetWithMessageSrc.runTr X [p, .str tag, msg, txt] = .ok (.none, [setV (elemV tag p) "message" .none]) := by
   simp only [Gen.c20oSetWithMessageSrc]
-  cases txt <;> orch_eval [hX.hsub, hX.hset, elemV, isNone]
+  cases txt <;> orch_eval [hX.hsub, hX.set_name, hX.set_classname, hX.set_status, hX.set_time, hX.set_tests, hX.set_disabled, hX.set_errors, hX.set_failures, hX.set_skipped, hX.set_timestamp, hX.hsetm, elemV, isNone]
 
 /-- **`_add_test_case(tree, test, classname)`**: one `testcase` element with name / classname / status / time, and the outcome
     children of the MODEL (`junitChildren`: failed → `failure`; error → `failure` AND `error`; skipped → `skipped`; passed → none),
@@ -35,8 +35,8 @@ theorem C20_source_add_test_case (hX : JExt X) (tree cn : Val) (t : Test) :
   obtain ⟨n, s⟩ := t
   simp only [Gen.c20oAddTestCaseSrc, testV, tsV]
   cases s <;>
-    orch_eval [haso, hswm, hX.hsub, hX.hset, hX.hstr, hX.hrepl, hX.hrcc, elemV, recordSet, TestStatus.name, TestStatus.truthy,
-      caseTrace, junitChildren, Gen.cliJunitChildren, Gen.cliTestStatusFalsy, msgOf, tsV, strV, setV]
+    orch_eval [haso, hswm, hX.hsub, hX.set_name, hX.set_classname, hX.set_status, hX.set_time, hX.set_tests, hX.set_disabled, hX.set_errors, hX.set_failures, hX.set_skipped, hX.set_timestamp, hX.hsetm, hX.hstr, hX.hrepl, hX.hrcc, elemV, recordSet, TestStatus.name, TestStatus.truthy,
+      caseTrace, junitChildren, Gen.cliJunitChildren, Gen.cliTestStatusFalsy, tsV, strV, setV]
 
 /-- … explicitly (the model's `junitChildren` is a table regenerated from the SAME source, so a changed child tag would change model
     and code alike — mutant K3 of notes/PHASE6_A4.md): the children are `childrenSpec` of the status. -/
@@ -48,8 +48,8 @@ theorem C20_source_add_test_case_explicit (hX : JExt X) (tree cn : Val) (t : Tes
   obtain ⟨n, s⟩ := t
   simp only [Gen.c20oAddTestCaseSrc, testV, tsV]
   cases s <;>
-    orch_eval [haso, hswm, hX.hsub, hX.hset, hX.hstr, hX.hrepl, hX.hrcc, elemV, recordSet, TestStatus.name, TestStatus.truthy,
-      caseTrace, childrenSpec, Gen.cliTestStatusFalsy, msgOf, tsV, strV, setV]
+    orch_eval [haso, hswm, hX.hsub, hX.set_name, hX.set_classname, hX.set_status, hX.set_time, hX.set_tests, hX.set_disabled, hX.set_errors, hX.set_failures, hX.set_skipped, hX.set_timestamp, hX.hsetm, hX.hstr, hX.hrepl, hX.hrcc, elemV, recordSet, TestStatus.name, TestStatus.truthy,
+      caseTrace, childrenSpec, Gen.cliTestStatusFalsy, tsV, strV, setV]
 
 /-- the whole trace that renders a `JSuite` whose cases come from the tests `ts` -/
 def C20.junitTrace (tree tsv cn : Val) (j : JSuite) (ts : List Test) : List Val :=
@@ -67,13 +67,13 @@ theorem C20_source_junit_element (hX : JExt X) (name : String) (s : Suite) (tsv 
   have haso := fun a v x st => callRet_of_runTr (C20_source_as_string_or hX a v) x st
   have hatc := fun tree cn t x st => callRet_of_runTr (C20_source_add_test_case hX tree cn t) x st
   simp only [Gen.c20oJunitElementSrc, jsuiteV]
-  orch_eval_nb [haso, hX.helem, hX.hset, hX.hstr, hX.hsub]
+  orch_eval_nb [haso, hX.helem, hX.set_name, hX.set_classname, hX.set_status, hX.set_time, hX.set_tests, hX.set_disabled, hX.set_errors, hX.set_failures, hX.set_skipped, hX.set_timestamp, hX.hsetm, hX.hstr, hX.hsub]
   -- `tests`
   generalize hc : compM _ (List.map testV s.tests) = c
   have h1 : c = .ok (s.tests.filterMap fun _ => some (Val.int 1)) := by
     rw [← hc]; exact compM_map_ok _ testV _ (fun t => rfl) s.tests
   subst h1
-  orch_eval_nb [haso, hX.helem, hX.hset, hX.hstr, hX.hsub, sum_all]
+  orch_eval_nb [haso, hX.helem, hX.set_name, hX.set_classname, hX.set_status, hX.set_time, hX.set_tests, hX.set_disabled, hX.set_errors, hX.set_failures, hX.set_skipped, hX.set_timestamp, hX.hsetm, hX.hstr, hX.hsub, sum_all]
   -- `error`
   generalize hc0 : compM _ (List.map testV s.tests) = c0
   have h0 : c0 = .ok (s.tests.filterMap fun t => if t.status.name == "error" then some (Val.int 1) else none) := by
@@ -81,7 +81,7 @@ theorem C20_source_junit_element (hX : JExt X) (name : String) (s : Suite) (tsv 
       obtain ⟨n, st⟩ := t
       cases st <;> simp [testV, tsV, TestStatus.name, Val.eqv, truthy_bool, List.lookup]) s.tests
   subst h0
-  orch_eval_nb [haso, hX.helem, hX.hset, hX.hstr, hX.hsub, sum_all, sum_ones_prop]
+  orch_eval_nb [haso, hX.helem, hX.set_name, hX.set_classname, hX.set_status, hX.set_time, hX.set_tests, hX.set_disabled, hX.set_errors, hX.set_failures, hX.set_skipped, hX.set_timestamp, hX.hsetm, hX.hstr, hX.hsub, sum_all, sum_ones_prop]
   -- `failed`
   generalize hc1 : compM _ (List.map testV s.tests) = c1
   have h1 : c1 = .ok (s.tests.filterMap fun t => if t.status.name == "failed" then some (Val.int 1) else none) := by
@@ -89,7 +89,7 @@ theorem C20_source_junit_element (hX : JExt X) (name : String) (s : Suite) (tsv 
       obtain ⟨n, st⟩ := t
       cases st <;> simp [testV, tsV, TestStatus.name, Val.eqv, truthy_bool, List.lookup]) s.tests
   subst h1
-  orch_eval_nb [haso, hX.helem, hX.hset, hX.hstr, hX.hsub, sum_all, sum_ones_prop]
+  orch_eval_nb [haso, hX.helem, hX.set_name, hX.set_classname, hX.set_status, hX.set_time, hX.set_tests, hX.set_disabled, hX.set_errors, hX.set_failures, hX.set_skipped, hX.set_timestamp, hX.hsetm, hX.hstr, hX.hsub, sum_all, sum_ones_prop]
   -- `skipped`
   generalize hc2 : compM _ (List.map testV s.tests) = c2
   have h2 : c2 = .ok (s.tests.filterMap fun t => if t.status.name == "skipped" then some (Val.int 1) else none) := by
@@ -97,7 +97,7 @@ theorem C20_source_junit_element (hX : JExt X) (name : String) (s : Suite) (tsv 
       obtain ⟨n, st⟩ := t
       cases st <;> simp [testV, tsV, TestStatus.name, Val.eqv, truthy_bool, List.lookup]) s.tests
   subst h2
-  orch_eval_nb [haso, hX.helem, hX.hset, hX.hstr, hX.hsub, sum_all, sum_ones_prop]
+  orch_eval_nb [haso, hX.helem, hX.set_name, hX.set_classname, hX.set_status, hX.set_time, hX.set_tests, hX.set_disabled, hX.set_errors, hX.set_failures, hX.set_skipped, hX.set_timestamp, hX.hsetm, hX.hstr, hX.hsub, sum_all, sum_ones_prop]
   -- one `testcase` per test
   generalize hf : forLoop _ _ _ = r
   have key := forLoop_fold_eq testV
